@@ -111,7 +111,7 @@ var specs = map[string]*propSpec{
 var chainComponents = map[string][]string{
 	"real":      {"lib/chain (instrumented)", "lib/utxo (instrumented)", "lib/btc (instrumented)", "lib/script, lib/secp256k1, lib/others/snappy (as they are)"},
 	"simulated": append([]string{"disk (simos pass-through + effect log + crash images)", "miners and block delivery (loss, duplication, reordering, withheld parents)", "independent signer with its own legacy/BIP143/BIP341 digests", "operator (idle, save, tick, close, reopen)"}, commonSim...),
-	"restated":  {"client/main.go dispatch of received blocks (parent unknown -> wait and retry; RPC path CheckBlock+AcceptBlock)", "tail of NewChainExt / client do_the_blocks start-up recovery (the harness must set its own consensus parameters between opening and re-applying blocks)"},
+	"restated":  {"client/main.go dispatch of received blocks (parent unknown -> wait and retry; RPC path CheckBlock+AcceptBlock)", "tail of NewChainExt for rule sets other than the test-net-4-like one (the harness must set its own consensus parameters between opening and re-applying blocks); the client's start-up replay is NOT re-stated any more: do_the_blocks, HandleNetBlock, LocalAcceptBlock and retry_cached_blocks run as they are (client/mainlib = client/*.go with the package clause changed), only the select loop around network.NetBlocks and the initialisation of common.BlockChain / network maps that main() and host_init() do is the harness's"},
 }
 
 func chainSpec(id, level string) *propSpec {
@@ -214,7 +214,7 @@ func c18Spec() *propSpec {
 		Components: map[string][]string{
 			"real":      append([]string{"client/network (instrumented: all handlers, FetchMessage, writing thread)", "client/peersdb on lib/others/qdb (instrumented)", "client/txpool, client/common (instrumented)"}, chainComponents["real"]...),
 			"simulated": append([]string{"transport (sim/simnet net.Conn: fragmentation, delays vs read deadline, resets, write errors)", "peers (message generators)"}, commonSim...),
-			"restated":  {"client/main.go main loop: consume network.NetBlocks (HandleNetBlock + LocalAcceptBlock reduced to HasAllParents / CachedBlocksAdd / CommitBlock) and network.NetTxs (txpool.HandleNetTx), periodic tick", "tcp_server: NewConnection + OpenCons registration for an incoming peer"},
+			"restated":  {"client/main.go main loop: only the select over network.NetBlocks / network.NetTxs / a tick is the harness's; blocks go to the client's own HandleNetBlock (-> LocalAcceptBlock -> CommitBlock, retry_cached_blocks) compiled from client/main.go as client/mainlib, transactions to txpool.HandleNetTx", "tcp_server: NewConnection + OpenCons registration for an incoming peer"},
 		},
 		Assumptions: []string{
 			"library parsers are exercised only as reached through these handlers; direct fuzzing of address / key / signature parsers is input generation (not claimed)",
